@@ -25,10 +25,13 @@ package fanoutconsumer
 import (
 	"bytes"
 	"context"
+	"errors"
 	"fmt"
 	"sort"
 	"strings"
+	"sync"
 	"testing"
+	"time"
 
 	"go.uber.org/multierr"
 
@@ -72,9 +75,9 @@ type vSigOps[T comparable, C any] struct {
 	abs     func(T) []int64
 	enc     func(T) []byte
 	write   func(T, vWr) bool // returns whether a pdata mutator was reached; may panic
-	mkCons  func(mut bool, fn func(T) error) C
+	mkCons  func(mut bool, fn func(context.Context, T) error) C
 	newFan  func([]C) C
-	consume func(C, T) error
+	consume func(context.Context, C, T) error
 	caps    func(C) bool
 }
 
@@ -130,8 +133,8 @@ var vLogs = vSigOps[plog.Logs, consumer.Logs]{
 		}
 		return true
 	},
-	mkCons: func(mut bool, fn func(plog.Logs) error) consumer.Logs {
-		c, err := consumer.NewLogs(func(_ context.Context, ld plog.Logs) error { return fn(ld) },
+	mkCons: func(mut bool, fn func(context.Context, plog.Logs) error) consumer.Logs {
+		c, err := consumer.NewLogs(func(ctx context.Context, ld plog.Logs) error { return fn(ctx, ld) },
 			consumer.WithCapabilities(consumer.Capabilities{MutatesData: mut}))
 		if err != nil {
 			panic(err)
@@ -139,7 +142,7 @@ var vLogs = vSigOps[plog.Logs, consumer.Logs]{
 		return c
 	},
 	newFan:  NewLogs,
-	consume: func(c consumer.Logs, ld plog.Logs) error { return c.ConsumeLogs(context.Background(), ld) },
+	consume: func(ctx context.Context, c consumer.Logs, ld plog.Logs) error { return c.ConsumeLogs(ctx, ld) },
 	caps:    func(c consumer.Logs) bool { return c.Capabilities().MutatesData },
 }
 
@@ -195,8 +198,8 @@ var vMetrics = vSigOps[pmetric.Metrics, consumer.Metrics]{
 		}
 		return true
 	},
-	mkCons: func(mut bool, fn func(pmetric.Metrics) error) consumer.Metrics {
-		c, err := consumer.NewMetrics(func(_ context.Context, md pmetric.Metrics) error { return fn(md) },
+	mkCons: func(mut bool, fn func(context.Context, pmetric.Metrics) error) consumer.Metrics {
+		c, err := consumer.NewMetrics(func(ctx context.Context, md pmetric.Metrics) error { return fn(ctx, md) },
 			consumer.WithCapabilities(consumer.Capabilities{MutatesData: mut}))
 		if err != nil {
 			panic(err)
@@ -204,7 +207,7 @@ var vMetrics = vSigOps[pmetric.Metrics, consumer.Metrics]{
 		return c
 	},
 	newFan:  NewMetrics,
-	consume: func(c consumer.Metrics, md pmetric.Metrics) error { return c.ConsumeMetrics(context.Background(), md) },
+	consume: func(ctx context.Context, c consumer.Metrics, md pmetric.Metrics) error { return c.ConsumeMetrics(ctx, md) },
 	caps:    func(c consumer.Metrics) bool { return c.Capabilities().MutatesData },
 }
 
@@ -263,8 +266,8 @@ var vTraces = vSigOps[ptrace.Traces, consumer.Traces]{
 		}
 		return true
 	},
-	mkCons: func(mut bool, fn func(ptrace.Traces) error) consumer.Traces {
-		c, err := consumer.NewTraces(func(_ context.Context, td ptrace.Traces) error { return fn(td) },
+	mkCons: func(mut bool, fn func(context.Context, ptrace.Traces) error) consumer.Traces {
+		c, err := consumer.NewTraces(func(ctx context.Context, td ptrace.Traces) error { return fn(ctx, td) },
 			consumer.WithCapabilities(consumer.Capabilities{MutatesData: mut}))
 		if err != nil {
 			panic(err)
@@ -272,7 +275,7 @@ var vTraces = vSigOps[ptrace.Traces, consumer.Traces]{
 		return c
 	},
 	newFan:  NewTraces,
-	consume: func(c consumer.Traces, td ptrace.Traces) error { return c.ConsumeTraces(context.Background(), td) },
+	consume: func(ctx context.Context, c consumer.Traces, td ptrace.Traces) error { return c.ConsumeTraces(ctx, td) },
 	caps:    func(c consumer.Traces) bool { return c.Capabilities().MutatesData },
 }
 
@@ -329,8 +332,8 @@ var vProfiles = vSigOps[pprofile.Profiles, xconsumer.Profiles]{
 		}
 		return true
 	},
-	mkCons: func(mut bool, fn func(pprofile.Profiles) error) xconsumer.Profiles {
-		c, err := xconsumer.NewProfiles(func(_ context.Context, pd pprofile.Profiles) error { return fn(pd) },
+	mkCons: func(mut bool, fn func(context.Context, pprofile.Profiles) error) xconsumer.Profiles {
+		c, err := xconsumer.NewProfiles(func(ctx context.Context, pd pprofile.Profiles) error { return fn(ctx, pd) },
 			consumer.WithCapabilities(consumer.Capabilities{MutatesData: mut}))
 		if err != nil {
 			panic(err)
@@ -338,8 +341,89 @@ var vProfiles = vSigOps[pprofile.Profiles, xconsumer.Profiles]{
 		return c
 	},
 	newFan:  NewProfiles,
-	consume: func(c xconsumer.Profiles, pd pprofile.Profiles) error { return c.ConsumeProfiles(context.Background(), pd) },
+	consume: func(ctx context.Context, c xconsumer.Profiles, pd pprofile.Profiles) error { return c.ConsumeProfiles(ctx, pd) },
 	caps:    func(c xconsumer.Profiles) bool { return c.Capabilities().MutatesData },
+}
+
+// ---- the caller's context ---------------------------------------------------------------------------
+// kind 0: a live context that never ends; 1: context.WithCancel, cancelled at the chosen point;
+// 2: a context whose deadline "passes" at the chosen point (own implementation of context.Context, so the
+// moment is chosen by the script, not by a clock: Err() == context.DeadlineExceeded from then on).
+type vCtxKey struct{}
+
+type vDeadlineCtx struct {
+	mu   sync.Mutex
+	done chan struct{}
+	err  error
+	tag  int
+}
+
+func (c *vDeadlineCtx) Deadline() (time.Time, bool) { return time.Time{}, false }
+func (c *vDeadlineCtx) Done() <-chan struct{}       { return c.done }
+func (c *vDeadlineCtx) Err() error {
+	c.mu.Lock()
+	defer c.mu.Unlock()
+	return c.err
+}
+func (c *vDeadlineCtx) Value(k any) any {
+	if k == (vCtxKey{}) {
+		return c.tag
+	}
+	return nil
+}
+func (c *vDeadlineCtx) expire() {
+	c.mu.Lock()
+	defer c.mu.Unlock()
+	if c.err == nil {
+		c.err = context.DeadlineExceeded
+		close(c.done)
+	}
+}
+
+func vMakeCtx(kind, tag int) (context.Context, func()) {
+	switch kind {
+	case 1:
+		return context.WithCancel(context.WithValue(context.Background(), vCtxKey{}, tag))
+	case 2:
+		c := &vDeadlineCtx{done: make(chan struct{}), tag: tag}
+		return c, c.expire
+	default:
+		return context.WithValue(context.Background(), vCtxKey{}, tag), func() {}
+	}
+}
+
+// error leaves with a meaning: the consumer failed by running into the caller's cancellation / deadline
+const (
+	vErrCanceled = 900001
+	vErrDeadline = 900002
+	vErrWrapped  = 900003
+)
+
+func vMkErr(id uint64) error {
+	switch id {
+	case vErrCanceled:
+		return context.Canceled
+	case vErrDeadline:
+		return context.DeadlineExceeded
+	case vErrWrapped:
+		return fmt.Errorf("export failed: %w", context.DeadlineExceeded)
+	}
+	return &vErr{id}
+}
+
+func vErrID(e error) uint64 {
+	var ve *vErr
+	switch {
+	case e == context.Canceled:
+		return vErrCanceled
+	case e == context.DeadlineExceeded:
+		return vErrDeadline
+	case errors.Is(e, context.DeadlineExceeded):
+		return vErrWrapped
+	case errors.As(e, &ve):
+		return ve.id
+	}
+	return 999999
 }
 
 func vMark(v interface{ Int() int64 }, ok bool) int64 {
@@ -358,6 +442,10 @@ type vFanCase struct {
 	seg0  []vLab     // writes attempted before the first call (nobody holds a payload yet)
 	segs  [][]vLab   // segs[k]: writes after the (k+1)-th consumer call; the last one after ConsumeX returned
 	extra []vLab     // writes after ConsumeX returned
+	// the caller's context: kind (see vMakeCtx) and the point at which it ends: -1 never; 0 before ConsumeX is
+	// called; k in 1..n while the k-th consumer call is in progress; n+1 after ConsumeX returned
+	ctxKind  int
+	ctxEndAt int
 }
 
 type vObsEv struct {
@@ -390,6 +478,7 @@ func vLabTerm(l vLab) string {
 }
 
 const vCallTerm = "(0,(0,(0,0%Z)))"
+const vCancelTerm = "(4,(0,(0,0%Z)))"
 
 func vRunFan[T comparable, C any](ops vSigOps[T, C], out *vOut, cs vFanCase) {
 	n := len(cs.caps)
@@ -485,10 +574,19 @@ func vRunFan[T comparable, C any](ops vSigOps[T, C], out *vOut, cs vFanCase) {
 	}
 
 	callNo := 0
+	ctxTag := 1000 + n
+	ctx, endCtx := vMakeCtx(cs.ctxKind, ctxTag)
+	ctxEnded := false
+	endNow := func() {
+		endCtx()
+		ctxEnded = true
+		evs = append(evs, vObsEv{2, 0, 0, nil})
+		out.Stat("ctx_ended", 1)
+	}
 	cons := make([]C, n)
 	for i := 0; i < n; i++ {
 		i := i
-		cons[i] = ops.mkCons(cs.caps[i], func(p T) error {
+		cons[i] = ops.mkCons(cs.caps[i], func(cctx context.Context, p T) error {
 			called[i]++
 			handles[i] = p
 			callOrder = append(callOrder, i)
@@ -496,7 +594,26 @@ func vRunFan[T comparable, C any](ops vSigOps[T, C], out *vOut, cs vFanCase) {
 			if ops.isRO(p) {
 				ro = 1
 			}
-			evs = append(evs, vObsEv{0, i, 2*cellOf(p) + ro, ops.abs(p)})
+			// the context the consumer is handed must be the caller's: same values, done iff the caller's is done
+			dn := 0
+			if cctx.Err() != nil {
+				dn = 2
+			}
+			if (dn == 2) != ctxEnded {
+				fail("context-state-differs", fmt.Sprintf("consumer %d (mutates=%v) sees ctx.Err()=%v, the caller's context ended=%v", i, cs.caps[i], cctx.Err(), ctxEnded))
+			}
+			if v, _ := cctx.Value(vCtxKey{}).(int); v != ctxTag {
+				fail("context-not-propagated", fmt.Sprintf("consumer %d (mutates=%v) was not handed the caller's context (value lost)", i, cs.caps[i]))
+			}
+			if ctxEnded {
+				out.Stat(fmt.Sprintf("call_with_done_ctx_mut=%v", cs.caps[i]), 1)
+			}
+			evs = append(evs, vObsEv{0, i, 4*cellOf(p) + dn + ro, ops.abs(p)})
+			if cs.ctxEndAt == callNo+1 {
+				// this consumer is slow: the caller's deadline passes / the caller gives up while it works
+				endNow()
+				out.Stat(fmt.Sprintf("ctx_ends_during_call_mut=%v", cs.caps[i]), 1)
+			}
 			b := ops.enc(p)
 			if !bytes.Equal(b, sentBytes) {
 				fail("content-differs-at-call", fmt.Sprintf("consumer %d (mutates=%v) received bytes different from what was sent", i, cs.caps[i]))
@@ -510,7 +627,7 @@ func vRunFan[T comparable, C any](ops vSigOps[T, C], out *vOut, cs vFanCase) {
 			callNo++
 			var err error
 			for _, id := range cs.errs[i] {
-				err = multierr.Append(err, &vErr{id})
+				err = multierr.Append(err, vMkErr(id))
 			}
 			return err
 		})
@@ -520,19 +637,22 @@ func vRunFan[T comparable, C any](ops vSigOps[T, C], out *vOut, cs vFanCase) {
 	for _, l := range cs.seg0 {
 		doWrite(l)
 	}
-	ret := ops.consume(fan, sent)
+	if cs.ctxEndAt == 0 {
+		endNow()
+	}
+	ret := ops.consume(ctx, fan, sent)
+	if cs.ctxEndAt == n+1 {
+		endNow()
+	}
 	for _, l := range cs.extra {
 		doWrite(l)
 	}
+	endCtx()
 
 	// ---- observation ----
 	var gotErr []uint64
 	for _, e := range multierr.Errors(ret) {
-		if ve, ok := e.(*vErr); ok {
-			gotErr = append(gotErr, ve.id)
-		} else {
-			gotErr = append(gotErr, 999999)
-		}
+		gotErr = append(gotErr, vErrID(e))
 	}
 	finals := make([]string, n)
 	for i := 0; i < n; i++ {
@@ -552,11 +672,20 @@ func vRunFan[T comparable, C any](ops vSigOps[T, C], out *vOut, cs vFanCase) {
 	for _, l := range cs.seg0 {
 		labs = append(labs, vLabTerm(l))
 	}
-	for _, seg := range cs.segs {
+	if cs.ctxEndAt == 0 {
+		labs = append(labs, vCancelTerm)
+	}
+	for k, seg := range cs.segs {
 		labs = append(labs, vCallTerm)
+		if cs.ctxEndAt == k+1 {
+			labs = append(labs, vCancelTerm)
+		}
 		for _, l := range seg {
 			labs = append(labs, vLabTerm(l))
 		}
+	}
+	if cs.ctxEndAt == n+1 {
+		labs = append(labs, vCancelTerm)
 	}
 	for _, l := range cs.extra {
 		labs = append(labs, vLabTerm(l))
@@ -649,6 +778,25 @@ func vRunFan[T comparable, C any](ops vSigOps[T, C], out *vOut, cs vFanCase) {
 	if cs.roIn {
 		out.Stat("input_readonly", 1)
 	}
+	switch {
+	case cs.ctxEndAt < 0:
+		out.Stat("ctx_never_ends", 1)
+	case cs.ctxEndAt == 0:
+		out.Stat("ctx_ended_before_consume", 1)
+	case cs.ctxEndAt > n:
+		out.Stat("ctx_ended_after_return", 1)
+	case cs.ctxEndAt <= nmut:
+		out.Stat("ctx_ends_during_mutating_phase", 1)
+		if cs.ctxEndAt < n {
+			out.Stat("ctx_ends_with_consumers_still_to_call", 1)
+		}
+	default:
+		out.Stat("ctx_ends_during_readonly_phase", 1)
+		if cs.ctxEndAt < n {
+			out.Stat("ctx_ends_with_consumers_still_to_call", 1)
+		}
+	}
+	out.Stat(fmt.Sprintf("ctx_kind_%d", cs.ctxKind), 1)
 	out.Stat(fmt.Sprintf("consumers_%02d", n), 1)
 	out.Stat("cases_"+ops.name, 1)
 }
@@ -662,11 +810,15 @@ func vGenCase(rng *vRand, caps []bool, roIn bool) vFanCase {
 	}
 	cs.errs = make([][]uint64, n)
 	for i := range cs.errs {
-		switch rng.Pick(6, 3, 1) {
+		switch rng.Pick(12, 6, 2, 1, 1) {
 		case 1:
 			cs.errs[i] = []uint64{uint64(10*i + 1)}
 		case 2:
 			cs.errs[i] = []uint64{uint64(10*i + 1), uint64(10*i + 2)}
+		case 3: // the consumer's OWN timeout (the caller's context may be perfectly live)
+			cs.errs[i] = []uint64{vErrDeadline}
+		case 4:
+			cs.errs[i] = []uint64{vErrWrapped, uint64(10*i + 4), vErrCanceled}
 		}
 	}
 	// expected call order (mutating first), only to bias writers towards consumers that already hold a payload
@@ -679,6 +831,37 @@ func vGenCase(rng *vRand, caps []bool, roIn bool) vFanCase {
 	for i, c := range caps {
 		if !c {
 			order = append(order, i)
+		}
+	}
+	// the caller's context: never ends | already ended before ConsumeX | ends while the k-th call is in progress
+	// (that consumer fails with the context's error; later ones may too) | ends after the return
+	cs.ctxEndAt = -1
+	cs.ctxKind = rng.Intn(3)
+	if cs.ctxKind > 0 {
+		switch rng.Pick(2, 2, 5, 1) {
+		case 1:
+			cs.ctxEndAt = 0
+		case 2:
+			if n > 0 {
+				cs.ctxEndAt = 1 + rng.Intn(n)
+			}
+		case 3:
+			cs.ctxEndAt = n + 1
+		}
+		ctxLeaf := uint64(vErrCanceled)
+		if cs.ctxKind == 2 {
+			ctxLeaf = vErrDeadline
+		}
+		for k, i := range order {
+			switch {
+			case cs.ctxEndAt >= 1 && k+1 == cs.ctxEndAt && rng.Intn(4) > 0:
+				cs.errs[i] = []uint64{ctxLeaf}
+			case cs.ctxEndAt >= 0 && k+1 > cs.ctxEndAt && rng.Intn(2) == 0:
+				cs.errs[i] = []uint64{ctxLeaf}
+				if cs.ctxKind == 2 && rng.Intn(2) == 0 {
+					cs.errs[i] = []uint64{vErrWrapped, uint64(10*i + 3)}
+				}
+			}
 		}
 	}
 	cur := len(cs.c0)
